@@ -121,13 +121,14 @@ def rule_f1(repo, res, modname, extra_ctor_kwargs=()):
                 and isinstance(a.args[0], ast.Name) and a.args[0].id == mvar and _has_starstar(a) and \
                 all(k.arg is None for k in a.keywords)
             form = "bytes" if enc else "text"
-            if ok and enc:
-                # the encoded form only for targets that are not text streams
+            if ok and c.func.attr == "write":
+                # text for text streams, the encoded form for everything else: polarity of the enclosing TextIOBase test
                 p = getattr(r, "_parent", None)
-                ok = isinstance(p, ast.If) and r in p.orelse and "TextIOBase" in norm(p.test)
-            elif ok and c.func.attr == "write":
-                p = getattr(r, "_parent", None)
-                ok = isinstance(p, ast.If) and r in p.body and "TextIOBase" in norm(p.test)
+                ok = isinstance(p, ast.If) and "TextIOBase" in norm(p.test)
+                if ok:
+                    negated = isinstance(p.test, ast.UnaryOp) and isinstance(p.test.op, ast.Not)
+                    is_text_branch = (r in p.body) != negated
+                    ok = is_text_branch != enc
         res.oblige("F1", f"{modname}.dump `{norm(r, 70)}` writes exactly dumps({mvar}, **kwargs) ({form})", ok=ok)
         if not ok:
             F("dump", norm(r, 70), f"{modname}.dump has a return that does not write exactly dumps({mvar}, **kwargs) "
